@@ -122,11 +122,17 @@ func OvsToNativeSlice(baseType string, ovsElem interface{}) (interface{}, error)
 	switch ovsSet := ovsElem.(type) {
 	case OvsSet:
 		nativeSet = reflect.MakeSlice(reflect.SliceOf(naType), 0, len(ovsSet.GoSet))
+		// a set holds an element once however often it is written
+		seen := make(map[interface{}]struct{}, len(ovsSet.GoSet))
 		for _, v := range ovsSet.GoSet {
 			nv, err := OvsToNativeAtomic(baseType, v)
 			if err != nil {
 				return nil, err
 			}
+			if _, ok := seen[nv]; ok {
+				continue
+			}
+			seen[nv] = struct{}{}
 			nativeSet = reflect.Append(nativeSet, reflect.ValueOf(nv))
 		}
 
